@@ -741,9 +741,19 @@ func (s *storage) append(br blob.SizedRef, r io.Reader) error {
 	packIdx := len(s.fds) - 1
 	// The index is updated before rolling over to the next pack file: the
 	// undo below must act on the pack the blob was written to.
-	err = s.index.Set(br.Ref.String(), blobMeta{packIdx, offset, br.Size}.String())
+	metaStr := blobMeta{packIdx, offset, br.Size}.String()
+	err = s.index.Set(br.Ref.String(), metaStr)
 	if err != nil {
 		undo()
+		// The index may have applied the row even though it reported a
+		// failure (e.g. a lost reply from a remote index); it must not
+		// keep pointing at the record we just truncated away. (Any
+		// other row for this blob is left alone: it is an earlier copy.)
+		if cur, getErr := s.index.Get(br.Ref.String()); getErr == nil && cur == metaStr {
+			if delErr := s.index.Delete(br.Ref.String()); delErr != nil {
+				log.Printf("ERROR removing index row of %v after a failed index update: %v", br.Ref, delErr)
+			}
+		}
 		return err
 	}
 	if s.size > s.maxFileSize {
